@@ -7,7 +7,7 @@ Driver for C17. One case =
 
 `<ann>` = `int|float|str|bool|datetime | (cls i) | (enum i) | (opt typing|unionNone|noneFirst|pipe a) |
 (cont list|set|tuple|sequence|blist|bset|btuple a) | (type a) | (fwd a) | (union a b T|F)`;
-`<op>` = `(q d k) | (acc d c k) | (render d T|F) | (copy d) | (sub d T|F)`.
+`<op>` = `(q d k) | (acc d c k) | (read d) | (render d T|F) | (copy d) | (sub d T|F)`.
 Further items (`(future b)`, `(mods n)`, `(enums n)`, `(generic id*)`, `(gsub (id arg)*)` = generic bases, `(twin t)` = further same-named diagrams, `(final b)` = order in which the accessors are read at the end) only steer how the harness renders the Python source.
 
 Observation (the same text is produced from the real `ClassDiagram` by harness/props/c17.py):
@@ -67,6 +67,7 @@ def parseClass : Sexp → Option ClassDef
 
 def parseOp : Sexp → Option Op
   | .list [.atom "q", d, k] => do pure (.query (← d.asNat?) (← k.asNat?))
+  | .list [.atom "read", d] => do pure (.read (← d.asNat?))
   | .list [.atom "acc", d, c, k] => do pure (.access (← d.asNat?) (← c.asNat?) (← k.asNat?))
   | .list [.atom "render", d, b] => do pure (.render (← d.asNat?) (← b.asBool?))
   | .list [.atom "copy", d] => do pure (.copy (← d.asNat?))
@@ -103,9 +104,19 @@ def showEdgesA (g : Graph) : String :=
 def showGraph (g : Graph) : String :=
   "N" ++ showList (sortStrings (g.nodes.map cname)) ++ " I" ++ showEdgesI g ++ " A" ++ showEdgesA g
 
-def showChanges (chs : List (List (Nat × Option Graph))) : String :=
-  "V[" ++ "|".intercalate (chs.map fun ch =>
-    ";".intercalate (ch.map fun p => s!"d{p.1}=" ++ (match p.2 with | some g => showGraph g | none => "gone"))) ++ "]"
+/-- per operation: the diagrams whose graph changed, and (for a `read d`) whether the accessor read-out of `d`
+differs from the previous read-out of `d` -/
+def showChanges (chs : List (List (Nat × Option Graph))) (reads : List (Option Nat)) : String :=
+  "V[" ++ "|".intercalate ((List.zip chs reads).map fun (ch, rd) =>
+    ";".intercalate ((ch.map fun p => s!"d{p.1}=" ++ (match p.2 with | some g => showGraph g | none => "gone"))
+      ++ (match rd with | some d => [s!"d{d}:readout-changed"] | none => []))) ++ "]"
+
+/-- which `read d` operations saw a changed read-out (model: `readTrace readout`; none, by `C17_accessors_pure`) -/
+def readFlags (q : Quirks) (g : Graph) (ops : List Op) : List (Option Nat) :=
+  (List.zip ops (readTrace readout q (Store.init g) [] ops)).map fun (op, b) =>
+    match op, b with
+    | .read d, true => some d
+    | _, _ => none
 
 /-- the diagrams whose accessors do not report their own graph (always none in the model: `C17_accessors`) -/
 def showReports (rs : List (Nat × List Edge)) : String :=
@@ -117,13 +128,13 @@ def showFields (w : World) (nodes : List Nat) (fl : Ann → Flags) (ep : Ann →
 /-- the observation of the code under quirk setting `q` -/
 def observe (q : Quirks) (w : World) (order : List Nat) (ops : List Op) : String :=
   let g := build q w order
-  showGraph g ++ " " ++ showFields w g.nodes (flags q) (endpoint q) ++ " " ++ showChanges (changes q (Store.init g) ops)
+  showGraph g ++ " " ++ showFields w g.nodes (flags q) (endpoint q) ++ " " ++ showChanges (changes q (Store.init g) ops) (readFlags q g ops)
     ++ " " ++ showReports (misreported (runOps q (Store.init g) ops))
 
 /-- the observation the property demands -/
 def observeSpec (w : World) (order : List Nat) (ops : List Op) : String :=
   let g := specBuild w order
-  showGraph g ++ " " ++ showFields w g.nodes specFlags specEndpoint ++ " " ++ showChanges (specChanges ops)
+  showGraph g ++ " " ++ showFields w g.nodes specFlags specEndpoint ++ " " ++ showChanges (specChanges ops) (ops.map fun _ => none)
     ++ " " ++ showReports []
 
 def anyPublicField (w : World) (order : List Nat) (p : Ann → Bool) : Bool :=
